@@ -396,4 +396,106 @@ theorem parseInt_ok_iff (bits : Nat) (hub : 10 ^ 19 ≤ 2 ^ bits) (s : List Nat)
         simp [hne]
 
 
+
+/-! ### `splitDot` -/
+
+/-- inverse of `splitDot`: join the parts with `.` -/
+def joinDot : List (List Nat) → List Nat
+  | [] => []
+  | [p] => p
+  | p :: q :: r => p ++ 46 :: joinDot (q :: r)
+
+theorem splitDot_ne_nil (s : List Nat) : splitDot s ≠ [] := by
+  cases s with
+  | nil => simp [splitDot]
+  | cons c cs =>
+    unfold splitDot
+    split
+    · simp
+    · split <;> simp
+
+theorem splitDot_spec (s : List Nat) :
+    (∀ p ∈ splitDot s, 46 ∉ p) ∧ joinDot (splitDot s) = s := by
+  induction s with
+  | nil => simp [splitDot, joinDot]
+  | cons c cs ih =>
+    unfold splitDot
+    cases h : splitDot cs with
+    | nil => exact absurd h (splitDot_ne_nil cs)
+    | cons p ps =>
+      rw [h] at ih
+      obtain ⟨ih1, ih2⟩ := ih
+      by_cases hc : c = 46
+      · subst hc
+        simp only [if_true]
+        constructor
+        · intro q hq
+          simp only [List.mem_cons] at hq
+          rcases hq with rfl | hq
+          · simp
+          · exact ih1 q (by simpa using hq)
+        · simp only [joinDot, List.nil_append, ih2]
+      · simp only [hc, if_false]
+        constructor
+        · intro q hq
+          simp only [List.mem_cons] at hq
+          rcases hq with rfl | hq
+          · have := ih1 p (by simp)
+            simp only [List.mem_cons, not_or]
+            exact ⟨fun h => hc h.symm, this⟩
+          · exact ih1 q (by simp [hq])
+        · cases ps with
+          | nil => simpa [joinDot] using ih2
+          | cons q r => simp only [joinDot, List.cons_append] at ih2 ⊢; rw [ih2]
+
+theorem splitDot_cons (c : Nat) (cs : List Nat) : splitDot (c :: cs) =
+    match splitDot cs with
+    | [] => [[]]
+    | p :: ps => if c = 46 then [] :: p :: ps else (c :: p) :: ps := by
+  conv_lhs => unfold splitDot
+  rfl
+
+theorem splitDot_of_not_mem {s : List Nat} (h : 46 ∉ s) : splitDot s = [s] := by
+  induction s with
+  | nil => simp [splitDot]
+  | cons c cs ih =>
+    simp only [List.mem_cons, not_or] at h
+    unfold splitDot
+    rw [ih h.2]
+    have : ¬ c = 46 := fun e => h.1 e.symm
+    simp [this]
+
+theorem splitDot_append_dot {a : List Nat} (b : List Nat) (h : 46 ∉ a) :
+    splitDot (a ++ 46 :: b) = a :: splitDot b := by
+  induction a with
+  | nil =>
+    simp only [List.nil_append]
+    rw [splitDot_cons]
+    cases hb : splitDot b with
+    | nil => exact absurd hb (splitDot_ne_nil b)
+    | cons p ps => simp
+  | cons c cs ih =>
+    simp only [List.mem_cons, not_or] at h
+    simp only [List.cons_append]
+    rw [splitDot_cons, ih h.2]
+    have : ¬ c = 46 := fun e => h.1 e.symm
+    simp [this]
+
+theorem splitDot_one {s a : List Nat} (h : splitDot s = [a]) : s = a ∧ 46 ∉ a := by
+  have := splitDot_spec s
+  rw [h] at this
+  exact ⟨by simpa [joinDot] using this.2.symm, this.1 a (by simp)⟩
+
+theorem splitDot_two {s a b : List Nat} (h : splitDot s = [a, b]) :
+    s = a ++ 46 :: b ∧ 46 ∉ a ∧ 46 ∉ b := by
+  have := splitDot_spec s
+  rw [h] at this
+  exact ⟨by simpa [joinDot] using this.2.symm, this.1 a (by simp), this.1 b (by simp)⟩
+
+theorem not_dot_of_digit {b : Nat} (h : IsDigit b) : b ≠ 46 := by unfold IsDigit at h; omega
+
+theorem dot_not_mem_of_allDigits {l : List Nat} (h : AllDigits l) : 46 ∉ l := by
+  intro hm; exact not_dot_of_digit (h 46 hm) rfl
+
+
 end Radix.DecimalText
